@@ -78,20 +78,20 @@ def int_tokens(t, maxbits, wide):
                 # decimal: every length (the width estimate depends on the digit count)
                 ns = lengths(base, maxn, {10: 156, 16: 40, 8: 48, 2: 130}[base], {10: 5, 16: 5, 8: 6, 2: 16}[base])
             else:
-                ns = lengths(base, maxn, {10: 14, 16: 9, 8: 12, 2: 20}[base], 1000)
+                ns = lengths(base, maxn, {10: 11, 16: 6, 8: 8, 2: 12}[base], 1000)
         else:
             maxn = {10: 39, 16: 33, 8: 44, 2: 128}[base]
-            ns = list(range(4, maxn + 1)) if t else lengths(base, maxn, {10: 12, 16: 8, 8: 8, 2: 10}[base], {10: 6, 16: 5, 8: 7, 2: 13}[base])
+            ns = list(range(4, maxn + 1)) if t else lengths(base, maxn, {10: 8, 16: 6, 8: 6, 2: 8}[base], {10: 9, 16: 8, 8: 11, 2: 21}[base])
         combos = [(a, f, l) for a in alpha for f in alpha for l in alpha]
         hi = alpha[-2] if base == 16 else alpha[-1]  # 'f' rather than 'F' for the all-max pattern
         for n in ns:
             if n < 4:
                 continue
             pats = [(hi, hi, hi), ('1', '0', '0')]
-            extra = 4 if t else (1 if n % 2 else 0)
+            extra = 4 if t else (1 if n % 3 == 0 else 0)
             for k in range(extra):
                 pats.append(combos[(n * 7 + k * 13) % len(combos)])
-            if base != 10:
+            if base != 10 and (t or n % 2):
                 pats.append(('0', hi, alpha[1]))  # leading zero
             for j, (a, f, l) in enumerate(pats):
                 if base == 10 and a == '0':
@@ -127,6 +127,8 @@ def fraction_tokens_cnl(t):
     toks = []
     ints = ['', '0', '00', '1', '9', '45', '10', "1'000"] if t else ['', '0', '1', '45']
     fbodies = [b for b in bodies(ALPHA[10], 4 if t else 3)]
+    if not t:
+        fbodies = fbodies[::2]
     for i, f in enumerate(fbodies):
         ip = ints[i % len(ints)]
         toks.append(ip + '.' + f)
@@ -226,7 +228,7 @@ def constant_lines(t):
     (thorough: denser) 65..127-bit values typed __int128. The most negative value of a type is excluded
     (digits_v<constant<V>> negates V: not a constant expression there)."""
     vals64 = set()
-    step = 1 if t else 3
+    step = 1 if t else 4
     for d in range(0, 4):
         vals64 |= {d, -d, 2 ** 63 - 1 - d, -(2 ** 63 - 1) + d}
     for k in range(1, 63, step):
@@ -252,7 +254,7 @@ def constant_lines(t):
         return '%d%s' % (v, suffix) if v >= 0 else '-%d%s' % (-v, suffix)
     for i, v in enumerate(sorted(vals64, key=lambda x: (abs(x), x))):
         lines.append('V("%d/i64", %s)' % (v, lit(v, 'L')))
-        if abs(v) < 2 ** 31 and (t or i % 3 == 0):
+        if abs(v) < 2 ** 31 and (t or i % 5 == 0):
             lines.append('V("%d/i32", %s)' % (v, lit(v, '')))
     ks = range(63, 127, 3 if t else 16)
     for k in list(ks) + [126]:
@@ -299,7 +301,7 @@ def plan(tier):
                               gen={'lit_c.inc': parts['c'][i], 'lit_cnl.inc': parts['cnl'][i], 'lit_cnl2.inc': parts['cnl2'][i], 'lit_wide.inc': parts['wide'][i]}))
     # (3) deduction from constants
     cl = constant_lines(t)
-    ncon = 16 if t else 6
+    ncon = 16 if t else 4
     cparts = split(cl, ncon)
     for comp in ('g++', 'clang++'):
         for i in range(ncon):
@@ -339,7 +341,7 @@ def plan(tier):
                      'the promised digits/exponent are taken from the doc comments and unit tests: _cnl/_cnl2 normalise trailing zero digits of the token radix / trailing zero bits into the exponent and '
                      'use the used digits of the rest; _wide and _c only promise a type wide enough; make_scaled_integer and CTAD are held to exponent == trailing zero bits and digits >= used digits',
                      'the most negative value of a constant\'s type is excluded (digits_v<constant<V>> evaluates -V)'],
-        deadline_s=1500 if t else 240,
+        deadline_s=1500 if t else 420,
     )
 
 
